@@ -2,6 +2,7 @@ package main
 
 import (
 	"github.com/pion/rtcp"
+	"time"
 
 	"bufio"
 	"encoding/json"
@@ -62,6 +63,11 @@ func scriptRT(s *exec.State, v abs.V) {
 			s.Scribble(2)
 			s.Unmarshal(kind, 1, 7)
 		}
+		// the type's own decoder handed the rest of a datagram as well: the packet followed by another one
+		if s.Buf[1] != nil && kind != "RAW" && kind != "CP" && len(s.Buf[1]) < 4000 {
+			s.SetBuf(8, append(append([]byte(nil), s.Buf[1]...), 0x81, 206, 0, 2, 9, 8, 7, 6, 5, 4, 3, 2))
+			s.Unmarshal(kind, 8, 9)
+		}
 	}
 	s.Datagram(1, 3)
 	if has(s, 3) {
@@ -99,6 +105,10 @@ func scriptDec(s *exec.State, b []byte) {
 			s.Marshal(2)
 			if s.Buf[2] != nil && entry != "CP" {
 				s.Unmarshal(entry, 2, 3)
+			}
+			// what the caller may do with the decoded value must not reach its other parts
+			if entry != "CP" && entry != "RAW" {
+				s.Scribble(2)
 			}
 		}
 	}
@@ -679,6 +689,21 @@ func init() {
 		s.Reset()
 		for _, t := range []string{"PacketType", "SDESType", "BlockTypeType", "TTLorHopLimitType", "ChunkHi"} {
 			s.EnumStrings(t)
+		}
+		// fields that hold wall-clock time, set to the time of the call and near it (a formatter that relates
+		// them to the clock): NTP timestamps of sender reports and receiver reference time blocks
+		for _, off := range []time.Duration{0, 200 * time.Microsecond, -200 * time.Microsecond, time.Second, -time.Second, time.Hour, -24 * time.Hour} {
+			for rep := 0; rep < 3; rep++ {
+				zero := abs.U64(0)
+				s.Reset()
+				s.BuildNow(1, abs.V{"k": "SR", "ssrc": g.U32(), "ntp": zero, "rtp": g.U32(), "pc": g.U32(), "oc": g.U32(), "reports": abs.L{}, "ext": abs.L{}}, off)
+				s.String(1)
+				s.BuildNow(2, abs.V{"k": "XR", "sender": g.U32(), "blocks": abs.L{abs.V{"bt": "rrt", "ntp": zero}}}, off)
+				s.String(2)
+				s.BuildNow(3, abs.V{"k": "CP", "pkts": abs.L{abs.V{"k": "SR", "ssrc": g.U32(), "ntp": zero, "rtp": g.U32(), "pc": g.U32(), "oc": g.U32(), "reports": abs.L{}, "ext": abs.L{}},
+					abs.V{"k": "SDES", "chunks": abs.L{abs.V{"src": g.U32(), "items": abs.L{abs.V{"t": 1, "text": abs.L{97}}}}}}}}, off)
+				s.String(3)
+			}
 		}
 		for e := 0; e < 255; e++ { // every power of two, and just below the next one
 			for _, f := range []int{0, 0x7FFFFF, 0x400000} {
